@@ -307,6 +307,7 @@ def c01(facts, tier):
         nrows += len(rows)
     rep.floor("R-METAFLOW(table)", "fresh-encryption metadata rows", nrows, 200)
     r_residue.run(facts, rep, floor=4, files={"src/util/scaling_variant.rs", "src/encryptor.rs", "src/util/rlwe.rs"})
+    r_resdom.run_negskip(facts, rep)
     return rep
 
 
@@ -372,7 +373,7 @@ def c02(facts, tier):
     rep.floor("R-REPSTATE", "(entry, scheme, assumption) analyses", n, 250)
     # key switching (relinearisation / rotation back end, shared by all schemes): the residues of each RNS slot of the
     # scratch product are produced and consumed under the same prime at every level
-    r_slotmod.run(facts, rep, lambda p: facts.items.get(p, {}).get("file") == "src/evaluator.rs", floor_sites=6, floor_pairs=10)
+    r_slotmod.run(facts, rep, lambda p: facts.items.get(p, {}).get("file") == "src/evaluator.rs", floor_sites=4, floor_pairs=4)
     # add/sub back ends: every contribution of the second operand is selected by the subtract flag
     r_modeflag.run(facts, rep, lambda p: facts.items.get(p, {}).get("file") == "src/evaluator.rs", floor=2)
     # BGV correction-factor balancing (and every other place a signed quantity is reduced): the sign is not dropped
@@ -463,7 +464,7 @@ def c03(facts, tier):
     n = r_meta.check_scale_guard_level(pfc, r_meta.MetaEngine(pfc), rep, "CKKS", ev)
     rep.floor("R-GUARD(scale-level)", "is_scale_within_bounds call sites with a tracked result", n, 3)
     # scheme-independent back ends the CKKS operations share with BFV/BGV (cross-listed from C02)
-    r_slotmod.run(facts, rep, ev, floor_sites=6, floor_pairs=10)
+    r_slotmod.run(facts, rep, ev, floor_sites=4, floor_pairs=4)
     r_modeflag.run(facts, rep, ev, floor=2)
     r_tensor.run(facts, rep, fnames=("ckks_multiply",), floor=1)
     return rep
@@ -485,6 +486,7 @@ def c08(facts, tier):
     rep.floor("R-CONTRA(shift)", "functions with left shifts", n, 10)
     r_residue.run(facts, rep, floor=30)
     r_residue.run_quotient_form(facts, rep)
+    r_contra.run_dropped_carry(facts, rep, None)
     return rep
 
 
@@ -667,7 +669,7 @@ def c04(facts, tier):
     # leaves it nothing to compare)
     r_pair.run_table_siblings(facts, rep, lambda p: p.startswith("evaluator::Evaluator::") or p.startswith("key::"))
     r_slotmod.run(facts, rep, lambda p: p.startswith("evaluator::Evaluator::") or p.startswith("key::"),
-                  floor_sites=6, floor_pairs=10)
+                  floor_sites=4, floor_pairs=4)
     ents = [p for p in api_entries(facts) if any(w in facts.items[p]["name"] for w in
             ("galois", "rotate", "conjugate", "keyswitching", "relinearize"))]
     repstate(facts, rep, ents, 90)
@@ -803,6 +805,7 @@ def c13(facts, tier):
     r_ladder.run_hashin(facts, rep)
     r_chain.run(facts, rep)
     r_constdef.run(facts, rep, floor=0)
+    r_contra.run_dropped_carry(facts, rep, None if tier == "thorough" else {"src/context.rs", "src/modulus.rs", "src/encryption_parameters.rs"})
     n_loops, _ = r_loop.run(facts, rep, scope_files={"src/context.rs", "src/modulus.rs", "src/encryption_parameters.rs"},
                             level_walk=False)
     return rep
@@ -824,6 +827,7 @@ def c10(facts, tier):
     r_resdom.run_operand_index(facts, rep, {"src/util/rns.rs"}, floor=10)
     r_shape.run_baselen(facts, rep)
     r_resdom.run_half(facts, rep, floor=4)
+    r_resdom.run_negskip(facts, rep)
     return rep
 
 
